@@ -109,6 +109,7 @@ def main(tier: str, seed: int, replay: str | None = None) -> int:
     rep = C.Report("C05", tier, seed)
     rep.proof_stage()
     rep.proof_stage("C05_fix")      # leastness of fix() on single-polarity types; fuel bounds
+    rep.proof_stage("C05_ctx")      # lub/glb/perm/mono for arbitrary one-hole contexts of any arity and variance
     rng = random.Random(seed)
     quick = tier == "quick"
     hs = [mk_hier(3, False), mk_hier(4, True)] if quick else [mk_hier(3, False), mk_hier(4, True), mk_hier(5, True)]
